@@ -679,6 +679,19 @@ fn gen_level(t: &mut Tape<'_>, opts: &GenOpts, depth: usize, name: &str, inh: &I
         version_propagated: inh.version_propagated || (c.version.is_some() && c.settings.propagate_version),
     };
     down.globals.extend(args.iter().filter(|a| a.global).cloned());
+    // the same definition through other builder routes / histories (see `Settings::route`, `decoy_history`)
+    for a in &mut args {
+        a.decoy_history = t.chance(1, 5);
+        if a.action == Action::SetTrue && !a.is_positional() && a.num_args.is_none() && t.chance(1, 4) {
+            // a flag declared through `num_args(0)` and no action
+            a.num_args = Some((0, 0));
+            a.action_inferred = true;
+        }
+    }
+    if t.chance(1, 3) {
+        c.settings.route = t.range(1, 63) as u8;
+    }
+    c.settings.decoy_history = t.chance(1, 5);
     c.args = args;
     for h in heads {
         let mut sc = gen_level(t, opts, depth + 1, h.name, &down);
